@@ -225,7 +225,7 @@ func HC02_WorldRel() {
 	if vChoice("deadparent", 2) == 1 {
 		x.opRemoveEntity(0)
 	}
-	steps := 2 + vTier()
+	steps := 2 // both tiers (thorough adds configurations): a third step exceeds the time budget
 	for s := 0; s < steps; s++ {
 		x.handleStep([5]int{0, 1, 2, 3, 4}[vChoice("op", 5)])
 		x.inv()
